@@ -141,6 +141,15 @@ func (l Label) MarshalValue() data.Value {
 	return data.List{data.String("label"), data.String(string(l))}
 }
 
+// timeFmt is the layout a conversion uses: the option, or ISO-8601 when the option is empty (so the
+// documentation of StructOptions.TimeFormat).
+func timeFmt(layout string) string {
+	if layout == "" {
+		return time.RFC3339
+	}
+	return layout
+}
+
 func levelValue(i int64) ref.Value {
 	switch Level(i) {
 	case 0:
@@ -260,6 +269,16 @@ func build(r Recipe, c *C20Case) (interface{}, ref.Value) {
 		return uint16(r.U), ref.I(int64(uint16(r.U)))
 	case "uint32":
 		return uint32(r.U), ref.I(int64(uint32(r.U)))
+	case "uintptr":
+		if uint64(uintptr(r.U)) > math.MaxInt64 {
+			return uintptr(r.U), ref.F(float64(uintptr(r.U)))
+		}
+		return uintptr(r.U), ref.I(int64(uintptr(r.U)))
+	case "array_int":
+		a := [3]int{int(r.I), 2, int(int32(r.U))}
+		return a, ref.L(ref.I(int64(int(r.I))), ref.I(2), ref.I(int64(int32(r.U))))
+	case "array_empty":
+		return [0]string{}, ref.L()
 	case "uint64":
 		if r.U > math.MaxInt64 {
 			return r.U, ref.F(float64(r.U))
@@ -277,7 +296,7 @@ func build(r Recipe, c *C20Case) (interface{}, ref.Value) {
 		return MyStr(r.S), ref.S(r.S)
 	case "time":
 		t := time.Unix(r.I, int64(r.U)).In(time.FixedZone("", int(parseF(r.F))))
-		return t, ref.S(t.Format(c.TimeFormat))
+		return t, ref.S(t.Format(timeFmt(c.TimeFormat)))
 	case "slice_time":
 		// one instant in several zones, side by side (equal instants, different texts)
 		base := time.Unix(r.I, int64(r.U))
@@ -290,7 +309,7 @@ func build(r Recipe, c *C20Case) (interface{}, ref.Value) {
 				t = base.UTC()
 			}
 			ts = append(ts, t)
-			l = append(l, ref.S(t.Format(c.TimeFormat)))
+			l = append(l, ref.S(t.Format(timeFmt(c.TimeFormat))))
 		}
 		if len(ts) == 0 {
 			return []time.Time{}, ref.L()
@@ -462,7 +481,7 @@ func build(r Recipe, c *C20Case) (interface{}, ref.Value) {
 		s := S3{ÉCole: r.S, X_y: int(r.U), ABC: r.S + "!", T: t, M: Marsh{int(r.I % 100)}, K: MyStr(r.S)}
 		e := map[string]ref.Value{
 			key("ÉCole", lower): ref.S(r.S), key("X_y", lower): ref.I(int64(int(r.U))), key("ABC", lower): ref.S(r.S + "!"),
-			key("T", lower): ref.S(t.Format(c.TimeFormat)), key("M", lower): ref.S("marsh:" + strconv.Itoa(int(r.I%100))),
+			key("T", lower): ref.S(t.Format(timeFmt(c.TimeFormat))), key("M", lower): ref.S("marsh:" + strconv.Itoa(int(r.I%100))),
 			key("K", lower): ref.S(r.S),
 		}
 		if r.B {
@@ -539,7 +558,7 @@ var (
 	c20Ints   = []int64{0, 1, -1, 2, 7, -128, 127, 255, 256, 65535, 1 << 31, -(1 << 31), 1<<53 - 1, 1 << 53, 1<<53 + 1, math.MaxInt64, math.MinInt64}
 	c20Floats = []string{"0", "-0", "0.5", "-1.5", "1", "2", "1e21", "1e-7", "3.25", "NaN", "+Inf", "-Inf", "9007199254740992", "9007199254740993", "1.7976931348623157e308", "5e-324", "255", "0.1"}
 	c20Strs   = []string{"", "a", "0", "false", "null", "é", "<b>", "日本", "a b", "x\x00y", "\xff"}
-	c20Leaf   = []string{"local_a", "local_b", "bag", "ptr_bag", "nil_bag", "attrs", "nil_attrs", "nil", "bool", "mybool", "int", "int8", "int16", "int32", "int64", "myint", "uint", "uint8", "uint16", "uint32", "uint64",
+	c20Leaf   = []string{"local_a", "local_b", "bag", "ptr_bag", "nil_bag", "attrs", "nil_attrs", "nil", "bool", "mybool", "int", "int8", "int16", "int32", "int64", "myint", "uint", "uint8", "uint16", "uint32", "uint64", "uintptr", "array_int", "array_empty",
 		"float64", "float32", "myfloat", "string", "mystr", "time", "slice_nil", "map_nil", "nilptr_struct", "nilptr_int", "nilptr_ptr", "nilptr_marsh",
 		"s1", "s3", "marsh", "ptr_marsh", "slice_int", "slice_str", "map_int", "level", "label", "slice_level", "slice_label", "slice_marsh", "map_level", "struct_level", "slice_time"}
 	c20Node = []string{"slice_any", "map_any", "map_named", "ptr", "s2", "value", "slice_ptr"}
@@ -656,7 +675,7 @@ func genC20(t *rapid.T) C20Case {
 		A:          genRecipe(t, d),
 		B:          genRecipe(t, d),
 		LowerCamel: rapid.Bool().Draw(t, "lowerCamel"),
-		TimeFormat: rapid.SampledFrom([]string{time.RFC3339, "2006-01-02", time.RFC1123Z, time.RFC3339Nano}).Draw(t, "timeFormat"),
+		TimeFormat: rapid.SampledFrom([]string{time.RFC3339, "2006-01-02", time.RFC1123Z, time.RFC3339Nano, ""}).Draw(t, "timeFormat"),
 	}
 }
 
@@ -792,7 +811,7 @@ func checkC20(c C20Case) Verdict {
 		if !c.LowerCamel {
 			want1 = "|nm||"
 		}
-		want2 := "|||" + when.Format(c.TimeFormat)
+		want2 := "|||" + when.Format(timeFmt(c.TimeFormat))
 		if pn != nil || e1 != nil || e2 != nil || b1.String() != want1 || b2.String() != want2 {
 			return bad(true, "Tofu.Render with data.DefaultStructOptions = %+v (set after the Tofu was built) wrote %q and %q (errors %v %v, panic %v), want %q and %q", opts, b1.String(), b2.String(), e1, e2, pn, want1, want2)
 		}
